@@ -85,3 +85,116 @@ def emit_all(emit) -> None:
         "ViewpointReorienter._get_normals for observer (0,-10,0), ceiling (0,0,10), centre 0: keys in dict order with "
         "the (unit) direction of each",
     )
+
+    _emit_source_tie(emit)
+
+
+# ---------------------------------------------------------------------------------------------------------------
+# round 6: what the source states literally (guards, constants, index recipes), read with `ast` from the current files
+
+
+def _functions(module):
+    """qualified name -> ast.FunctionDef of every function / method of a module's current source"""
+    import ast
+    import inspect
+
+    tree = ast.parse(inspect.getsource(module))
+    out = {}
+    for node in tree.body:
+        if isinstance(node, ast.FunctionDef):
+            out[node.name] = node
+        elif isinstance(node, ast.ClassDef):
+            for sub in node.body:
+                if isinstance(sub, ast.FunctionDef):
+                    out[f"{node.name}.{sub.name}"] = sub
+    return out
+
+
+def _emit_source_tie(emit) -> None:
+    import ast
+
+    from classy_blocks.modify.find import finder, geometric, shape
+    from classy_blocks.modify.reorient import viewpoint
+    from classy_blocks.util import functions
+
+    vp = _functions(viewpoint)
+    srcs = [("viewpoint", vp), ("finder", _functions(finder)), ("geometric", _functions(geometric)), ("shape", _functions(shape))]
+    fn = _functions(functions)
+    srcs.append(("functions", {k: fn[k] for k in ("is_point_on_plane", "point_to_plane_distance") if k in fn}))
+
+    # every comparison and every slice of the anchored functions, as source text, in source order
+    compares, slices = [], []
+    for mod, funcs in srcs:
+        for name, node in funcs.items():
+            for sub in ast.walk(node):
+                if isinstance(sub, ast.Compare):
+                    compares.append((f"{mod}.{name}", sub.lineno, sub.col_offset, ast.unparse(sub)))
+                elif isinstance(sub, ast.Subscript) and isinstance(sub.slice, ast.Slice):
+                    slices.append((f"{mod}.{name}", sub.lineno, sub.col_offset, ast.unparse(sub)))
+    compares.sort(key=lambda c: (c[0].split(".")[0] != "viewpoint", c[1], c[2]))
+    emit(
+        "c18Compares",
+        "List (String × String)",
+        [(c[0], c[3]) for c in sorted(compares, key=lambda c: (c[0], c[1], c[2]))],
+        "every comparison (ast.Compare) of viewpoint.py, finder.py, geometric.py, shape.py and functions.is_point_on_plane / "
+        "point_to_plane_distance: (function, source text), sorted by function and position",
+    )
+    emit(
+        "c18Slices",
+        "List (String × String)",
+        [(c[0], c[3]) for c in sorted(slices, key=lambda c: (c[0], c[1], c[2]))],
+        "every slice of the same functions: (function, source text)",
+    )
+
+    # ViewpointReorienter.reorient: the eight triple intersections, the handedness test and the swap
+    reorient = vp["ViewpointReorienter.reorient"]
+    recipe, swap, hand = [], [], []
+    for sub in ast.walk(reorient):
+        if isinstance(sub, ast.Assign) and len(sub.targets) == 1 and ast.unparse(sub.targets[0]) == "sorted_points":
+            if isinstance(sub.value, ast.List):  # quads[a].get_common_point(quads[b], quads[c])
+                for call in sub.value.elts:
+                    recipe.append(
+                        (call.func.value.slice.value, call.args[0].slice.value, call.args[1].slice.value)
+                    )
+            elif isinstance(sub.value, ast.ListComp):  # [sorted_points[i] for i in (...)]
+                swap = [e.value for e in sub.value.generators[0].iter.elts]
+        if isinstance(sub, ast.Assign) and ast.unparse(sub.targets[0]) in ("side_x", "side_y", "side_z"):
+            v = sub.value  # sorted_points[a] - sorted_points[b]
+            hand.append((ast.unparse(sub.targets[0]), v.left.slice.value, v.right.slice.value))
+    emit("c18CornerRecipe", "List (String × String × String)", recipe,
+         "reorient: sorted_points[k] = quads[a].get_common_point(quads[b], quads[c]), in list order")
+    emit("c18SwapIdx", "List Nat", swap, "reorient: the index tuple of the handedness swap")
+    emit("c18HandSides", "List (String × Nat × Nat)", hand, "reorient: side_x/y/z = sorted_points[a] - sorted_points[b]")
+
+    # numeric constants of the guards
+    def const_of(func, pred):
+        for sub in ast.walk(func):
+            if isinstance(sub, ast.Compare) and pred(ast.unparse(sub)):
+                c = sub.comparators[0]
+                return type(sub.ops[0]).__name__, c.value
+        raise LookupError(func.name)
+
+    op, n = const_of(vp["ViewpointReorienter._make_triangles"], lambda s: "hull.simplices" in s)
+    emit("c18HullCount", "String × Nat", (op, n), "_make_triangles: `len(hull.simplices) <op> <n>` raises 'not convex'")
+    op, lim = const_of(vp["Quadrangle.__init__"], lambda s: "np.dot" in s)
+    num, den = Fraction(float(lim)).as_integer_ratio()
+    emit("c18SteepLimit", "String × Nat × Nat", (op, num, den),
+         "Quadrangle.__init__: `np.dot(n0, n1) <op> num/den` raises (the 60 degree limit)")
+    aligned = vp["ViewpointReorienter._get_aligned"]
+    sl = [s for s in ast.walk(aligned) if isinstance(s, ast.Subscript) and isinstance(s.slice, ast.Slice)][0].slice
+    emit("c18AlignedSlice", "Int × Bool", (ast.literal_eval(ast.unparse(sl.lower)), sl.upper is None),
+         "_get_aligned: sorted(...)[lower:] (upper bound absent)")
+    key = [s for s in ast.walk(aligned) if isinstance(s, ast.Lambda)][0]
+    emit("c18AlignedKey", "String", ast.unparse(key.body), "_get_aligned: the sort key")
+    shell = _functions(shape)["RoundSolidFinder.find_shell"]
+    sl = [s for s in ast.walk(shell) if isinstance(s, ast.Subscript) and isinstance(s.slice, ast.Slice)][0].slice
+    emit("c18ShellSlice", "Nat × Nat", (sl.lower.value, sl.upper.value), "find_shell: face.points[lower:upper]")
+    fb = _functions(finder)["FinderBase._find_by_position"]
+    default = [ast.unparse(s.body[0].value) for s in ast.walk(fb) if isinstance(s, ast.If) and "radius is None" in ast.unparse(s.test)]
+    emit("c18DefaultRadius", "List String", default, "_find_by_position: what `radius` becomes when it is None")
+    order = [ast.unparse(k) for s in ast.walk(vp["ViewpointReorienter._get_normals"]) if isinstance(s, ast.Return)
+             for k in s.value.keys]
+    vals = [ast.unparse(v) for s in ast.walk(vp["ViewpointReorienter._get_normals"]) if isinstance(s, ast.Return)
+            for v in s.value.values]
+    emit("c18NormalsDict", "List (String × String)", list(zip([o.strip("'\"") for o in order], vals)),
+         "_get_normals: the returned dict literal, key -> expression, in source order")
